@@ -43,6 +43,9 @@ type c01Plan struct {
 	IdxFaults []vfkit.FaultKind
 	Picks     []int
 	Interval  int32
+	// Cancels[k] = w+1 means: before the k-th scheduling step the context of worker w's
+	// current operation is cancelled (a client that disconnects mid-request); 0 = nothing.
+	Cancels []int
 }
 
 func c01DrawPlan(t *rapid.T) c01Plan {
@@ -56,12 +59,13 @@ func c01DrawPlan(t *rapid.T) c01Plan {
 		}
 		p.Workers = append(p.Workers, ops)
 	}
-	p.MaxBytes = rapid.SampledFrom([]int{0, 0, 120, 300, 700}).Draw(t, "maxbytes")
+	p.MaxBytes = rapid.SampledFrom([]int{0, 120, 120, 300, 700}).Draw(t, "maxbytes")
 	fk := rapid.SampledFrom([]vfkit.FaultKind{vfkit.FaultNone, vfkit.FaultNone, vfkit.FaultNone, vfkit.FaultBefore, vfkit.FaultAfter})
 	p.SegFaults = rapid.SliceOfN(fk, 0, 8).Draw(t, "segfaults")
 	p.IdxFaults = rapid.SliceOfN(fk, 0, 8).Draw(t, "idxfaults")
 	p.Picks = rapid.SliceOfN(rapid.IntRange(0, 5), 0, 40).Draw(t, "picks")
 	p.Interval = rapid.SampledFrom([]int32{1, 3, 100}).Draw(t, "interval")
+	p.Cancels = rapid.SliceOfN(rapid.SampledFrom([]int{0, 0, 0, 0, 0, 0, 1, 2, 3, 4}), 0, 24).Draw(t, "cancels")
 	return p
 }
 
@@ -84,6 +88,7 @@ type c01Result struct {
 	PubWithConcurrent bool // a publish callback parked while another producer is between Append and end of Flush
 	EmptyFlush        bool
 	EmptyAfterFail    bool
+	Cancelled         bool // some operation's context was cancelled while it was in flight
 	Uploads           int
 }
 
@@ -150,7 +155,8 @@ func c01Run(t *testing.T, p c01Plan) (res c01Result) {
 			}
 			return vfkit.FaultNone
 		}
-		inFlight := 0 // producers between start of Append and end of Flush
+		inFlight := 0                                         // producers between start of Append and end of Flush
+		cancels := make([]context.CancelFunc, len(p.Workers)) // cancel func of each worker's current op
 		obj.OnOp = func(op vfkit.ObjOp) {
 			if strings.HasPrefix(op.Kind, "put-") {
 				if op.Fault != vfkit.FaultNone {
@@ -199,10 +205,12 @@ func c01Run(t *testing.T, p c01Plan) (res c01Result) {
 					}
 					// worker start is itself a scheduling point so that appends interleave
 					sched.Gate(fmt.Sprintf("w%d", w), fmt.Sprintf("append %s", tag))
+					opCtx, cancel := context.WithCancel(ctx)
 					mu.Lock()
 					inFlight++
+					cancels[w] = cancel
 					mu.Unlock()
-					ar, err := plog.AppendBatch(ctx, batch)
+					ar, err := plog.AppendBatch(opCtx, batch)
 					ok := err == nil
 					if !ok {
 						mu.Lock()
@@ -210,7 +218,7 @@ func c01Run(t *testing.T, p c01Plan) (res c01Result) {
 						mu.Unlock()
 					}
 					if ok && op.Ack {
-						if ferr := plog.Flush(ctx); ferr != nil {
+						if ferr := plog.Flush(opCtx); ferr != nil {
 							ok = false
 							mu.Lock()
 							lastFlushFailed = true
@@ -223,7 +231,9 @@ func c01Run(t *testing.T, p c01Plan) (res c01Result) {
 					}
 					mu.Lock()
 					inFlight--
+					cancels[w] = nil
 					mu.Unlock()
+					cancel()
 					if ok && op.Ack {
 						a := c01Ack{Worker: w, Op: i, Base: ar.BaseOffset, Tag: tag, Records: op.Records}
 						msg := c01FindAcked(obj, a)
@@ -272,6 +282,17 @@ func c01Run(t *testing.T, p c01Plan) (res c01Result) {
 				res.PubWithConcurrent = true
 			}
 			mu.Unlock()
+			if pi < len(p.Cancels) && p.Cancels[pi] > 0 && p.Cancels[pi]-1 < len(cancels) {
+				mu.Lock()
+				c := cancels[p.Cancels[pi]-1]
+				mu.Unlock()
+				if c != nil {
+					c()
+					res.Cancelled = true
+					sched.Trace = append(sched.Trace, fmt.Sprintf("cancel-ctx w%d", p.Cancels[pi]-1))
+					synctest.Wait()
+				}
+			}
 			k := 0
 			if pi < len(p.Picks) {
 				k = p.Picks[pi] % len(ps)
@@ -330,7 +351,7 @@ func c01Shape(p c01Plan) string {
 		}
 		sb.WriteString("|")
 	}
-	fmt.Fprintf(&sb, "mb%d s%v i%v p%v", p.MaxBytes, p.SegFaults, p.IdxFaults, p.Picks)
+	fmt.Fprintf(&sb, "mb%d s%v i%v p%v c%v", p.MaxBytes, p.SegFaults, p.IdxFaults, p.Picks, p.Cancels)
 	return sb.String()
 }
 
@@ -364,6 +385,9 @@ func c01Check(t *testing.T, focus string) {
 		}
 		if r.PubWithConcurrent {
 			st.Class("publish-parked-with-concurrent-producer")
+		}
+		if r.Cancelled {
+			st.Class("context-cancelled-in-flight")
 		}
 		if len(r.Acks) > 0 {
 			st.Class("has-acks")
